@@ -214,7 +214,11 @@ impl World {
         src.push_str(&format!("def g{k}(d = {imp_list}, e = x{k}):\n    return [d, e]\n"));
         src.push_str(&format!("def _mk{k}():\n    box = [x{k}, {imp_list}]\n    return lambda: box\nlam{k} = _mk{k}()\n"));
         src.push_str(&format!("Rec{k} = record(a = typing.Any)\nt{k} = (Rec{k}(a = {imp_list}), struct(p = x{k}))\n"));
-        let symbols: Vec<String> = ["x", "s", "emb", "re", "f", "g", "lam", "t"].iter().map(|p| format!("{p}{k}")).collect();
+        // constants of every representation: inline (None, bool, small int), statically allocated strings ("" and one
+        // ASCII character), and values that look small but live in this module's heap (one non-ASCII character, two
+        // characters, big int, float)
+        src.push_str(&format!("cn{k} = None\ncb{k} = True\nci{k} = {}\ncbig{k} = (1 << 70) + {k}\ncf{k} = {k}.5\nce{k} = \"\"\nca{k} = \"a\"\ncu{k} = \"é\"\ncw{k} = \"→\"\nc2{k} = \"x{}\"\n", 7 + k, k % 10));
+        let symbols: Vec<String> = ["x", "s", "emb", "re", "f", "g", "lam", "t", "cn", "cb", "ci", "cbig", "cf", "ce", "ca", "cu", "cw", "c2"].iter().map(|p| format!("{p}{k}")).collect();
         // which Globals: the shared static one or a temporary one (its heap must be kept alive by the module)
         let use_temp_globals = ch.chance(1, 3);
         let temp_globals: Option<Globals> = if use_temp_globals {
